@@ -103,6 +103,10 @@ fn run_conn(sc: &J, rec: &Rc<RefCell<Rec>>) {
     match res {
         Err(_) => {
             let (loc, msg) = take_panic().unwrap_or(("?".into(), "?".into()));
+            if msg.starts_with("scenario:") {
+                eprintln!("bad scenario {}: {}", sc["id"], msg);
+                std::process::exit(2);
+            }
             end["result"] = json!("panic");
             end["site"] = json!(panic_site(&loc));
             end["msg"] = json!(msg);
